@@ -876,7 +876,7 @@ def bounded(chk, i):
     import json
     from pyvc.report import run_replay
     from .C19_oracle import ORACLE, DRIVER
-    res = run_replay(ORACLE + DRIVER, {"chunk": i, "nchunks": NCH_B}, chk.repo, timeout=6000)
+    res = run_replay(ORACLE + DRIVER, {"chunk": i, "nchunks": NCH_B, "sizes": [1, 2, 3] if chk.tier == "thorough" else [2]}, chk.repo, timeout=6000)
     if "evaluations" not in res:
         chk.undecided(f"bounded[{i}/{NCH_B}]:array-programs", "oracle run failed: " + json.dumps(res)[:800])
         return
@@ -885,7 +885,7 @@ def bounded(chk, i):
                            not res.get("violates"), res["evaluations"], detail=res.get("detail") or f"{res['evaluations']} runs agree (values, and panic exactly for indices outside 0..n-1 and for lending a row twice)",
                            witness=w, func="guppylang_internals.std._internal.compiler.array:ArrayGetitemCompiler")
     if w:
-        o.replay.update({"script": ORACLE + DRIVER, "input": {"chunk": 0, "nchunks": 1, "only": w["program"]}})
+        o.replay.update({"script": ORACLE + DRIVER, "input": {"chunk": 0, "nchunks": 1, "only": w["program"], "sizes": [1, 2, 3]}})
 
 
 def array_comprehension(chk):
